@@ -1,6 +1,7 @@
 //! pdbverif: drives the real parity-db and emits protocol traces for the Lean model driver,
 //! plus independent oracle checks.  One sub-command per model slice.
 mod c08;
+mod c13;
 mod c16;
 mod c19;
 mod p1;
@@ -20,6 +21,7 @@ fn dispatch(cmd: &str) -> Option<RunFn> {
 		"c19" => c19::run,
 		"c08" => c08::run,
 		"c16" => c16::run,
+		"c13" => c13::run,
 		_ => return None,
 	})
 }
